@@ -106,7 +106,10 @@ def check_fold(chk, rule, where, kf, what, *, kind, term=None, sense=None, init_
         if kind == "ARGSET":
             if label is not None and kf.label != label:
                 probs.append("lists `%s`, specification lists `%s`" % (show(kf.label), show(label)))
-            if need_ties and not kf.ties:
+            if kf.ties == "inconsistent":
+                probs.append("the list is reset when `%s` is strictly better but ties are judged by `%s`: values that round to the same key do not tie consistently "
+                             "(an equally optimal earlier action is dropped)" % (show(ext.term), show(kf.tie_cond)))
+            elif need_ties and not kf.ties:
                 probs.append("the tie branch (append on equal key) is missing: only the first optimal action is listed")
             if not ext.strict:
                 probs.append("resets the list on a non-strictly better key (ties overwrite instead of accumulate)")
